@@ -346,7 +346,7 @@ def hyp_search(ctx, strategy, check, examples, label, max_buckets=4, shrink=True
             raise Found(sig)
 
         phases = [Phase.generate, Phase.target]
-        if shrink:
+        if shrink and not os.environ.get("VERIF_NO_SHRINK"):     # tools/seed.py and tools/mut.py only need the verdict
             phases.append(Phase.shrink)
         test = given(strategy)(body)
         test = seed(seed_for(ctx.seed, label, ctx.spec, rounds))(test)
